@@ -253,7 +253,8 @@ def fresh_eval(sc, which, values, targets, variant=()):
                 co.add_variable(o, c['type'], **c['kw'])
             co.operands = ops
             co.run()
-        return [f(op.value) for op in ops]
+        vals = [f(op.value) for op in ops]
+    return vals, snapshot(o, sc['WS'], {})
 
 
 def independent_stream(sc):
@@ -299,14 +300,16 @@ for sc in job['scenarios']:
         for tr in res['trials']:
             if sc.get('skip_oracle'):
                 break
-            fr = fresh_eval(sc, tr['which'], tr['values'], res['targets'])
+            fr, fsnap = fresh_eval(sc, tr['which'], tr['values'], res['targets'])
             ok = all(close(a, b, tol) for a, b in zip(fr, tr['row_ops'])) and len(fr) == len(tr['row_ops'])
-            e = {'fresh': fr, 'ok': ok}
+            # where the lens at evaluation differs from the freshly built one (attribution of state-level mismatches)
+            e = {'fresh': fr, 'ok': ok, 'state_diff': snap_diff(fsnap, tr['snap'], 1e-6 if sc['comps'] else 1e-9),
+                 'nominal_diff': snap_diff(res['nominal'], tr['snap'])}
             if not ok:
                 e['explained'] = None
                 for variant in (('d23',), ('plane',), ('d23', 'plane')):
                     try:
-                        fv = fresh_eval(sc, tr['which'], tr['values'], res['targets'], variant)
+                        fv, _ = fresh_eval(sc, tr['which'], tr['values'], res['targets'], variant)
                     except Exception:
                         continue
                     if all(close(a, b, tol) for a, b in zip(fv, tr['row_ops'])):
